@@ -87,7 +87,20 @@ for name in names:
         res = []
         ok = True
         for label, cmd, e in runs:
-            p = subprocess.run(cmd, cwd=scratch, env=e, capture_output=True, text=True)
+            p = None
+            for attempt in range(2):     # pytest-xdist occasionally hangs (idle workers in ducc0's thread pool)
+                try:
+                    p = subprocess.run(cmd, cwd=scratch, env=e, capture_output=True, text=True,
+                                       timeout=int(os.environ.get("SEED_TEST_TIMEOUT", "1500")))
+                    break
+                except subprocess.TimeoutExpired:
+                    subprocess.run("ps -eo pid,args | grep '%s' | grep -v grep | awk '{print $1}' | xargs -r kill -9"
+                                   % os.path.basename(scratch), shell=True)
+                    p = None
+            if p is None:
+                res.append(dict(suite=label, cmd=" ".join(cmd), summary="HUNG twice (timeout)", failed=[]))
+                ok = False
+                continue
             tail = [ln for ln in p.stdout.splitlines() if " passed" in ln or " failed" in ln or " error" in ln][-1:]
             failed = [ln for ln in p.stdout.splitlines() if ln.startswith("FAILED") or ln.startswith("ERROR")]
             real = [f for f in failed if not any(x in f for x in FLAKY)]
